@@ -602,6 +602,58 @@ func runC17(rc *RunCtx) {
 		"shutdown_ctx": sc.ShutdownCtx.String(), "clients": describeLifeClients(sc), "reject_every": sc.RejectEvery, "server_read_timeout": sc.ReadTimeout.String()}
 	cb := fmt.Sprintf("cb=%04b", sc.Callbacks)
 	rc.Probe(fmt.Sprintf("%s|%s", cb, sc.Action))
+	{
+		nclose, nhold, npanic, ncut, nslow := 0, 0, 0, 0, 0
+		for _, c := range sc.Clients {
+			for _, op := range c.Ops {
+				switch op.Kind {
+				case "close":
+					nclose++
+				case "hold":
+					nhold++
+				case "req":
+					if op.Panic {
+						npanic++
+					}
+					if op.Cut > 0 {
+						ncut++
+					}
+					if op.Work > 0 {
+						nslow++
+					}
+				}
+			}
+		}
+		rc.Fault("lifecycle:"+sc.Action+"|trigger="+sc.Trigger, out.ShutdownDone || out.Cancelled)
+		if sc.Second != "" {
+			rc.Fault("second_lifecycle_call:"+sc.Second, out.Second != nil || sc.Second == "cancel")
+		}
+		if nclose > 0 {
+			rc.Fault("client_disconnects", true)
+		}
+		if nhold > 0 {
+			rc.Fault("client_keeps_connection_open", true)
+		}
+		if npanic > 0 {
+			rc.Fault("handler_panics", true)
+		}
+		if ncut > 0 {
+			rc.Fault("request_in_two_writes", true)
+		}
+		if nslow > 0 {
+			rc.Fault("handler_still_working_at_shutdown_possible", true)
+		}
+		if sc.RejectEvery > 0 {
+			rej := false
+			for _, a := range out.Accepts {
+				rej = rej || a.Rejected
+			}
+			rc.Fault("accept_callback_rejects", rej)
+		}
+		if sc.WriteDelay > 0 {
+			rc.Fault("slow_server_writes", out.WritesBegun > 0)
+		}
+	}
 	if rc.Race {
 		for _, p := range out.Panics {
 			rc.Violate("panic", "task="+p.Task, "panic in task %s: %s", p.Task, p.Value)
